@@ -442,9 +442,14 @@ pub struct Runner {
     pub uni: Universe,
     pub contracts: Vec<Address>,
     pub contract_inscs: Vec<String>,
+    /// program of each known contract (None for raw-bytes creations)
+    pub contract_progs: Vec<Option<Prog>>,
+    pending_prog: Option<Prog>,
     pub events: Vec<Event>,
     pub stats: Stats,
     pub init_req: Option<Req>,
+    /// receipt of the controller deployment (not returned to the indexer; looked up on demand)
+    pub init_receipt: Option<Value>,
     /// keccak(raw signed tx) -> inscription id it was submitted with (drained txs keep their own)
     pub signed_insc: std::collections::HashMap<String, String>,
     seq: u64,
@@ -486,9 +491,12 @@ impl Runner {
             uni,
             contracts: vec![],
             contract_inscs: vec![],
+            contract_progs: vec![],
+            pending_prog: None,
             events: vec![],
             stats: Stats::default(),
             init_req: None,
+            init_receipt: None,
             signed_insc: std::collections::HashMap::new(),
             seq: 0,
             cur_op: 0,
@@ -570,6 +578,7 @@ impl Runner {
             if created_by_this && !self.contracts.contains(&a) {
                 self.contracts.push(a);
                 self.contract_inscs.push(insc.to_string());
+                self.contract_progs.push(self.pending_prog.take());
             }
             self.stats.creates += 1;
         }
@@ -780,7 +789,9 @@ impl Runner {
                 let txid = self.txid_param();
                 p.insert("op_return_tx_id".into(), json!(txid));
                 let insc = self.fresh_insc();
+                self.pending_prog = Some(prog.clone());
                 self.tx_request("brc20_deploy", p, blk, insc, true);
+                self.pending_prog = None;
             }
             Op::Call { from, target, by_insc, sel, arg, len, blk, b64 } => {
                 let data = evm::calldata(*sel, evm::const_val(*arg));
@@ -804,7 +815,9 @@ impl Runner {
                 p.insert("op_return_tx_id".into(), json!(txid));
                 let insc = self.fresh_insc();
                 self.signed_insc.insert(b256_hex(keccak256(&raw)), insc.clone());
+                self.pending_prog = if let Payload::Create(pr) = payload { Some(pr.clone()) } else { None };
                 self.tx_request("brc20_transact", p, blk, insc, is_create);
+                self.pending_prog = None;
             }
             Op::Deposit { to, tick, amt, blk } => {
                 let mut p = serde_json::Map::new();
